@@ -96,7 +96,8 @@ func (h *agentRegisterHandler) respondWithAccountID() responseModifier {
 }
 
 func parseRegistrationFeatures(request *http.Request) []registrationFeature {
-	rawFeatures := strings.Split(request.Header.Get(featuresHeader), ",")
+	// a list field may arrive as several header lines: they are one list
+	rawFeatures := strings.Split(strings.Join(request.Header.Values(featuresHeader), ","), ",")
 
 	var features []registrationFeature
 	for _, feature := range rawFeatures {
